@@ -32,6 +32,16 @@ STRENGTHENED = {
     "C18-r3": "sparse leadership: three shards, the server leads a non-prefix subset (scripted elector)",
     "C19-r3": "graceful stop with several pending conditions while one write fails",
     "C20-r3": "a third label value, so that the label shapes (marker keys with empty values swapped) reach status updates",
+    "C01-r4": "lone '-' entries (the inversion of the empty value) in the generator's alphabet",
+    "C02-r4": "confusable identities: same user name, groups / extras that coincide under lossy renderings, sent through ONE gateway in changing orders; one token per identity",
+    "C04-r4": "one header name carrying the SAME value several times (request and response), empty values",
+    "C06-r4": "the schema's life before it becomes the bucket under test (absent / max-in-flight / exempt); requests release like the dispatcher does",
+    "C08-r4": "sequential in-flight reports through DoAcquire (negative amounts included), judged by TraceGcSeq",
+    "C10-r4": "objects whose names COLLIDE with another cluster's (no admission in front of the gateway): refused updates, then deletes (Names.tla Admission=FALSE, CollideOK); ctrl harness tolerates the leak report",
+    "C11-r4": "an enabled endpoint HAS a live health-check loop and the view follows its upstream (EndpointLife.tla upstream health flips, Restart=FALSE refuted; proxyh pokelive; readiness / probe waits became observations)",
+    "C12-r4": "endpoints handed from one cluster to another / disabled (AuthEndpoints.tla, pinned review client refuted; three upstreams, a new token per request)",
+    "C18-r4": "the allocated sum is judged against the quotas on record (SumOK); saturated survivors",
+    "C20-r4": "the kinds served with a status subresource and their strategies are READ from the storage map the control plane installs (real NewRESTStorage wiring), not transcribed",
 }
 rows = []
 for d in sorted(glob.glob("/verif/seeded/C*")):
